@@ -1,3 +1,6 @@
+/-
+  C08 — helper lemmas: what the send primitives (trySend, pump) append; logs only grow; only the write loop writes.
+-/
 import ApiFu.C08.Lemmas
 namespace ApiFu.C08
 
@@ -77,9 +80,21 @@ theorem pump_spec (cfg : Cfg) (p : List SFrame) (fc : Bool) (tc : Option Nat) : 
       simp [h3]
 
 
-/-! ### Logs only grow; `didInit` is never reset -/
+/-! ### Logs only grow; `didInit` is never reset; only the write loop writes -/
 
+def Out.notWire : Out → Bool
+  | .wire _ => false
+  | _ => true
+
+/-- `s'` extends `s`: the log grew, `didInit` was not reset. -/
 def Ext (s s' : Sys) : Prop := (∃ ext, s'.log = s.log ++ ext) ∧ (s.didInit = true → s'.didInit = true)
+
+/-- … and nothing was written to the socket. -/
+def ExtNW (s s' : Sys) : Prop :=
+  (∃ ext, s'.log = s.log ++ ext ∧ ∀ o ∈ ext, o.notWire = true) ∧ (s.didInit = true → s'.didInit = true)
+
+theorem ExtNW.ext {s s' : Sys} (h : ExtNW s s') : Ext s s' := by
+  obtain ⟨⟨e, h1, _⟩, h2⟩ := h; exact ⟨⟨e, h1⟩, h2⟩
 
 theorem Ext.refl (s : Sys) : Ext s s := ⟨⟨[], by simp⟩, fun h => h⟩
 theorem Ext.trans {a b c : Sys} (h1 : Ext a b) (h2 : Ext b c) : Ext a c := by
@@ -87,32 +102,44 @@ theorem Ext.trans {a b c : Sys} (h1 : Ext a b) (h2 : Ext b c) : Ext a c := by
   obtain ⟨⟨e2, h2⟩, d2⟩ := h2
   exact ⟨⟨e1 ++ e2, by rw [h2, h1]; simp⟩, fun h => d2 (d1 h)⟩
 
-theorem ext_of_eq {s s' : Sys} (h1 : s'.log = s.log) (h2 : s'.didInit = s.didInit) : Ext s s' :=
-  ⟨⟨[], by simp [h1]⟩, fun h => by rw [h2]; exact h⟩
+theorem ExtNW.refl (s : Sys) : ExtNW s s := ⟨⟨[], by simp, by simp⟩, fun h => h⟩
+theorem ExtNW.trans {a b c : Sys} (h1 : ExtNW a b) (h2 : ExtNW b c) : ExtNW a c := by
+  obtain ⟨⟨e1, h1, n1⟩, d1⟩ := h1
+  obtain ⟨⟨e2, h2, n2⟩, d2⟩ := h2
+  refine ⟨⟨e1 ++ e2, by rw [h2, h1]; simp, ?_⟩, fun h => d2 (d1 h)⟩
+  intro o ho; rcases List.mem_append.mp ho with ho | ho
+  · exact n1 o ho
+  · exact n2 o ho
 
-theorem ext_emit (s : Sys) (o : Out) : Ext s (emit s o) := ⟨⟨[o], rfl⟩, fun h => h⟩
+theorem ext_of_eq {s s' : Sys} (h1 : s'.log = s.log) (h2 : s'.didInit = s.didInit) : ExtNW s s' :=
+  ⟨⟨[], by simp [h1], by simp⟩, fun h => by rw [h2]; exact h⟩
 
-theorem ext_beginClosing (s : Sys) (c : Nat) : Ext s (beginClosing s c) :=
+theorem ext_emit (s : Sys) (o : Out) (hn : o.notWire = true := by rfl) : ExtNW s (emit s o) :=
+  ⟨⟨[o], rfl, by intro o' ho'; simp at ho'; subst ho'; exact hn⟩, fun h => h⟩
+
+theorem ext_beginClosing (s : Sys) (c : Nat) : ExtNW s (beginClosing s c) :=
   ext_of_eq (beginClosing_same s c).1 (beginClosing_same s c).2.2.2.2.1
 
-theorem ext_pump (cfg : Cfg) (s : Sys) (p : List SFrame) (fc : Bool) (tc : Option Nat) : Ext s (pump cfg s p fc tc) := by
+theorem ext_pump (cfg : Cfg) (s : Sys) (p : List SFrame) (fc : Bool) (tc : Option Nat) : ExtNW s (pump cfg s p fc tc) := by
   obtain ⟨a, b, _, h2, _, h4, _⟩ := pump_spec cfg p fc tc s
-  exact ⟨⟨_, h2⟩, fun h => by rw [h4]; exact h⟩
+  refine ⟨⟨_, h2, ?_⟩, fun h => by rw [h4]; exact h⟩
+  intro o ho; obtain ⟨f, _, rfl⟩ := List.mem_map.mp ho; rfl
 
-theorem ext_trySend (cfg : Cfg) (s : Sys) (f : SFrame) : Ext s (trySend cfg s f).1 := by
+theorem ext_trySend (cfg : Cfg) (s : Sys) (f : SFrame) : ExtNW s (trySend cfg s f).1 := by
   rcases trySend_spec cfg s f with ⟨_, h2, _⟩ | ⟨_, h2, _⟩ | ⟨_, h2, _⟩ <;> rw [h2]
   · exact ext_emit _ _
-  · exact Ext.refl s
-  · exact Ext.refl s
+  · exact ExtNW.refl s
+  · exact ExtNW.refl s
 
-theorem ext_callStop (s : Sys) (g : Gen) : Ext s (callStop s g) := ⟨⟨[.stop g], rfl⟩, fun h => h⟩
+theorem ext_callStop (s : Sys) (g : Gen) : ExtNW s (callStop s g) :=
+  ⟨⟨[.stop g], rfl, by simp [Out.notWire]⟩, fun h => h⟩
 
-theorem ext_stopAll (l : List (Id × Gen)) : ∀ s : Sys, Ext s (stopAll s l) := by
+theorem ext_stopAll (l : List (Id × Gen)) : ∀ s : Sys, ExtNW s (stopAll s l) := by
   induction l with
-  | nil => intro s; exact Ext.refl s
+  | nil => intro s; exact ExtNW.refl s
   | cons p rest ih => intro s; unfold stopAll; exact (ext_callStop s p.2).trans (ih _)
 
-theorem ext_handleClose (s : Sys) : Ext s (handleClose s) := by
+theorem ext_handleClose (s : Sys) : ExtNW s (handleClose s) := by
   unfold handleClose
   simp only []
   have h := ext_stopAll s.subs s
@@ -120,77 +147,79 @@ theorem ext_handleClose (s : Sys) : Ext s (handleClose s) := by
   · exact (h.trans (ext_of_eq rfl rfl)).trans (ext_emit _ _)
   · exact h.trans (ext_of_eq rfl rfl)
 
-theorem ext_finishClosing (s : Sys) : Ext s (finishClosing s) := by
+theorem ext_finishClosing (s : Sys) : ExtNW s (finishClosing s) := by
   unfold finishClosing; split
-  · exact Ext.refl s
+  · exact ExtNW.refl s
   · exact (ext_of_eq (s' := { s with finishOnce := true }) rfl rfl).trans (ext_handleClose _)
 
-theorem ext_admitSub {cfg : Cfg} {s s' : Sys} {id : Id} (h : admitSub cfg s id = some s') : Ext s s' := by
+theorem ext_admitSub {cfg : Cfg} {s s' : Sys} {id : Id} (h : admitSub cfg s id = some s') : ExtNW s s' := by
   unfold admitSub at h
   split at h
-  · cases h; exact Ext.refl s
+  · cases h; exact ExtNW.refl s
   · split at h
     · cases h; exact (ext_of_eq (s' := { s with subs := eraseSub s.subs id }) rfl rfl).trans (ext_callStop _ _)
     · cases h
 
-theorem ext_startSync (s : Sys) (g : Gen) (id : Id) (k : OpKind) (e : Bool) : Ext s (startSync s g id k e).1 := by
+theorem ext_startSync (s : Sys) (g : Gen) (id : Id) (k : OpKind) (e : Bool) : ExtNW s (startSync s g id k e).1 := by
   unfold startSync; cases e
   · exact ext_emit _ _
   · exact (ext_emit _ _).trans (ext_emit _ _)
 
-theorem ext_handleStart (cfg : Cfg) (s : Sys) (g : Gen) (id : Id) (k : OpKind) : Ext s (handleStart cfg s g id k).1 := by
+theorem ext_handleStart (cfg : Cfg) (s : Sys) (g : Gen) (id : Id) (k : OpKind) : ExtNW s (handleStart cfg s g id k).1 := by
   unfold handleStart
   cases k <;> simp only []
   · exact ext_startSync _ _ _ _ _
   · exact ext_startSync _ _ _ _ _
   · split
-    · exact Ext.refl s
+    · exact ExtNW.refl s
     · rename_i s' ha
       apply (ext_admitSub ha).trans
       unfold startSub
       exact ((ext_emit _ _).trans (ext_emit _ _)).trans (ext_of_eq rfl rfl)
   · split
-    · exact Ext.refl s
+    · exact ExtNW.refl s
     · rename_i s' ha; exact (ext_admitSub ha).trans (ext_startSync _ _ _ _ _)
   · exact ext_startSync _ _ _ _ _
 
-theorem ext_handleStop (s : Sys) (id : Id) : Ext s (handleStop s id) := by
+theorem ext_handleStop (s : Sys) (id : Id) : ExtNW s (handleStop s id) := by
   unfold handleStop; split
-  · exact Ext.refl s
+  · exact ExtNW.refl s
   · exact (ext_of_eq (s' := { s with subs := eraseSub s.subs id }) rfl rfl).trans (ext_callStop _ _)
 
-theorem ext_readerExit (s : Sys) : Ext s (readerExit s) := by
+theorem ext_readerExit (s : Sys) : ExtNW s (readerExit s) := by
   unfold readerExit
   exact (ext_beginClosing s 1011).trans (ext_of_eq rfl rfl)
 
-theorem ext_handle (cfg : Cfg) (s : Sys) (f : CFrame) : Ext s (handle cfg s f) := by
+theorem ext_handle (cfg : Cfg) (s : Sys) (f : CFrame) : ExtNW s (handle cfg s f) := by
   have he := ext_emit s (.recv f s.didInit)
   apply he.trans
   unfold handle
   cases f with
   | close => exact (ext_of_eq (s' := { emit s _ with closeRecv := true }) rfl rfl).trans (ext_readerExit _)
-  | malformed => simp only []; split; exact Ext.refl _; exact ext_beginClosing _ _
+  | malformed => simp only []; split; exact ExtNW.refl _; exact ext_beginClosing _ _
   | init ok =>
     cases ok <;> simp only [] <;> split
     · exact ext_pump _ _ _ _ _
     · exact ext_beginClosing _ _
-    · exact (show Ext (emit s _) { emit s _ with didInit := true } from ⟨⟨[], by simp⟩, fun _ => rfl⟩).trans (ext_pump _ _ _ _ _)
-    · exact (show Ext (emit s _) { emit s _ with didInit := true } from ⟨⟨[], by simp⟩, fun _ => rfl⟩).trans (ext_pump _ _ _ _ _)
+    · exact (show ExtNW (emit s _) { emit s _ with didInit := true } from ⟨⟨[], by simp, by simp⟩, fun _ => rfl⟩).trans (ext_pump _ _ _ _ _)
+    · exact (show ExtNW (emit s _) { emit s _ with didInit := true } from ⟨⟨[], by simp, by simp⟩, fun _ => rfl⟩).trans (ext_pump _ _ _ _ _)
   | start id k =>
     simp only []
     split
     · exact ext_of_eq rfl rfl
     · exact ((ext_of_eq (s' := { emit s _ with nextGen := s.nextGen + 1 }) rfl rfl).trans (ext_handleStart _ _ _ _ _)).trans (ext_pump _ _ _ _ _)
-  | startBad id => simp only []; split; exact Ext.refl _; split; exact Ext.refl _; exact ext_beginClosing _ _
-  | stop id => simp only []; split; exact Ext.refl _; exact ext_handleStop _ _
+  | startBad id => simp only []; split; exact ExtNW.refl _; split; exact ExtNW.refl _; exact ext_beginClosing _ _
+  | stop id => simp only []; split; exact ExtNW.refl _; exact ext_handleStop _ _
   | ping =>
-    simp only []; split; exact Ext.refl _
+    simp only []; split; exact ExtNW.refl _
     split
-    · split; exact Ext.refl _; exact ext_pump _ _ _ _ _
+    · split; exact ExtNW.refl _; exact ext_pump _ _ _ _ _
     · exact ext_beginClosing _ _
-  | pong => exact Ext.refl _
+  | pong => exact ExtNW.refl _
   | terminate => simp only []; split <;> exact ext_beginClosing _ _
-  | unknown => simp only []; split; exact Ext.refl _; exact ext_beginClosing _ _
+  | unknown => simp only []; split; exact ExtNW.refl _; exact ext_beginClosing _ _
+
+theorem ext_emit' (s : Sys) (o : Out) : Ext s (emit s o) := ⟨⟨[o], rfl⟩, fun h => h⟩
 
 theorem ext_writerStep (s : Sys) (pick : WPick) : Ext s (writerStep s pick) := by
   unfold writerStep
@@ -199,35 +228,35 @@ theorem ext_writerStep (s : Sys) (pick : WPick) : Ext s (writerStep s pick) := b
     · split
       · exact Ext.refl s
       · split
-        · exact (ext_of_eq (s' := { s with outgoing := _ }) rfl rfl).trans (ext_emit _ _)
-        · exact ext_of_eq rfl rfl
-    · split <;> first | exact Ext.refl s | exact ext_of_eq rfl rfl
+        · exact (ext_of_eq (s' := { s with outgoing := _ }) rfl rfl).ext.trans (ext_emit' _ _)
+        · exact (ext_of_eq rfl rfl).ext
+    · split <;> first | exact Ext.refl s | exact (ext_of_eq rfl rfl).ext
     · split
       · split
-        · exact (ext_emit _ _).trans (ext_of_eq rfl rfl)
-        · exact ext_of_eq rfl rfl
+        · exact (ext_emit' _ _).trans (ext_of_eq rfl rfl).ext
+        · exact (ext_of_eq rfl rfl).ext
       · exact Ext.refl s
   · split
     · split
-      · exact (ext_of_eq (s' := { s with outgoing := _ }) rfl rfl).trans (ext_emit _ _)
-      · exact ext_of_eq rfl rfl
+      · exact (ext_of_eq (s' := { s with outgoing := _ }) rfl rfl).ext.trans (ext_emit' _ _)
+      · exact (ext_of_eq rfl rfl).ext
     · split
-      · exact (ext_emit _ _).trans (ext_of_eq rfl rfl)
-      · exact ext_of_eq rfl rfl
-  · exact ext_of_eq rfl rfl
+      · exact (ext_emit' _ _).trans (ext_of_eq rfl rfl).ext
+      · exact (ext_of_eq rfl rfl).ext
+  · exact (ext_of_eq rfl rfl).ext
   · split
-    · exact (ext_finishClosing s).trans (ext_of_eq rfl rfl)
+    · exact ((ext_finishClosing s).trans (ext_of_eq rfl rfl)).ext
     · exact Ext.refl s
   · exact Ext.refl s
 
-theorem ext_subTaskStep (cfg : Cfg) (s : Sys) (g : Gen) : Ext s (subTaskStep cfg s g) := by
+theorem ext_subTaskStep (cfg : Cfg) (s : Sys) (g : Gen) : ExtNW s (subTaskStep cfg s g) := by
   unfold subTaskStep
   split
-  · exact Ext.refl s
+  · exact ExtNW.refl s
   · split
     · split
       · exact (ext_of_eq (s' := { s with tasks := _ }) rfl rfl).trans (ext_emit _ _)
-      · exact Ext.refl s
+      · exact ExtNW.refl s
     · split
       · rename_i s' heq; have h1 := congrArg Prod.fst heq; simp at h1; rw [← h1]; exact ext_trySend _ _ _
       · rename_i s' r _ heq; have h1 := congrArg Prod.fst heq; simp at h1
@@ -236,46 +265,57 @@ theorem ext_subTaskStep (cfg : Cfg) (s : Sys) (g : Gen) : Ext s (subTaskStep cfg
       · rename_i s' heq; have h1 := congrArg Prod.fst heq; simp at h1; rw [← h1]; exact ext_trySend _ _ _
       · rename_i s' r _ heq; have h1 := congrArg Prod.fst heq; simp at h1
         exact (h1 ▸ ext_trySend cfg s _).trans (ext_of_eq rfl rfl)
-    · exact Ext.refl s
+    · exact ExtNW.refl s
 
-theorem ext_sourceStep (s : Sys) (g : Gen) (e : SrcEv) : Ext s (sourceStep s g e) := by
+theorem ext_sourceStep (s : Sys) (g : Gen) (e : SrcEv) : ExtNW s (sourceStep s g e) := by
   unfold sourceStep
   split
   · exact ext_of_eq rfl rfl
   · split
-    · exact Ext.refl s
+    · exact ExtNW.refl s
     · split
       · exact (ext_of_eq (s' := { s with tasks := _ }) rfl rfl).trans (ext_emit _ _)
-      · exact Ext.refl s
+      · exact ExtNW.refl s
 
-theorem ext_step (cfg : Cfg) (s : Sys) (e : Ev) : Ext s (stepS cfg s e) := by
+/-- Only the write loop writes: every other step leaves the wire alone. -/
+theorem extNW_step (cfg : Cfg) (s : Sys) (e : Ev) (hw : ∀ pick, e ≠ .writerStep pick) : ExtNW s (stepS cfg s e) := by
   unfold stepS
   cases e with
-  | client f => simp only []; split; exact ext_handle _ _ _; exact Ext.refl s
+  | client f => simp only []; split; exact ext_handle _ _ _; exact ExtNW.refl s
   | source g e => exact ext_sourceStep _ _ _
   | readerStep =>
     simp only []
     split
     · split
       · exact ext_readerExit s
-      · exact Ext.refl s
+      · exact ExtNW.refl s
     · exact ext_pump _ _ _ _ _
-    · exact Ext.refl s
-  | writerStep pick => exact ext_writerStep _ _
+    · exact ExtNW.refl s
+  | writerStep pick => exact absurd rfl (hw pick)
   | subTaskStep g => exact ext_subTaskStep _ _ _
   | netDrop => exact ext_of_eq rfl rfl
   | serverClose =>
     simp only []
     split
-    · have h1 : Ext s (if s.registered = true then emit { s with registered := false } Out.deregistered else s) := by
+    · have h1 : ExtNW s (if s.registered = true then emit { s with registered := false } Out.deregistered else s) := by
         split
         · exact (ext_of_eq (s' := { s with registered := false }) rfl rfl).trans (ext_emit _ _)
-        · exact Ext.refl s
+        · exact ExtNW.refl s
       exact (h1.trans (ext_beginClosing _ _)).trans (ext_of_eq rfl rfl)
     · split
       · exact (ext_finishClosing s).trans (ext_of_eq rfl rfl)
-      · exact Ext.refl s
-    · exact Ext.refl s
+      · exact ExtNW.refl s
+    · exact ExtNW.refl s
+
+theorem ext_step (cfg : Cfg) (s : Sys) (e : Ev) : Ext s (stepS cfg s e) := by
+  cases e with
+  | writerStep pick => exact ext_writerStep s pick
+  | client f => exact (extNW_step cfg s _ (by intro p h; cases h)).ext
+  | source g e => exact (extNW_step cfg s _ (by intro p h; cases h)).ext
+  | readerStep => exact (extNW_step cfg s _ (by intro p h; cases h)).ext
+  | subTaskStep g => exact (extNW_step cfg s _ (by intro p h; cases h)).ext
+  | netDrop => exact (extNW_step cfg s _ (by intro p h; cases h)).ext
+  | serverClose => exact (extNW_step cfg s _ (by intro p h; cases h)).ext
 
 theorem ext_run (cfg : Cfg) (evs : List Ev) : ∀ s, Ext s (run cfg s evs) := by
   induction evs with
